@@ -179,8 +179,9 @@ def run_tlc(module, cfg, workers=8, env=None, timeout=3600, simulate=None, heap=
         e.update(env)
     t0 = time.time()
     try:
-        p = subprocess.run(cmd, cwd=SPEC, env=e, stdout=subprocess.PIPE, stderr=subprocess.STDOUT, text=True,
-                           timeout=timeout)
+        # bytes, decoded by hand: text mode would translate a lone CR inside a printed string into LF
+        p = subprocess.run(cmd, cwd=SPEC, env=e, stdout=subprocess.PIPE, stderr=subprocess.STDOUT, timeout=timeout)
+        p.stdout = p.stdout.decode("utf-8", "replace")
     except subprocess.TimeoutExpired:
         shutil.rmtree(meta, ignore_errors=True)
         raise ToolError(f"TLC timed out after {timeout}s on {module} / {cfg}")
@@ -190,7 +191,7 @@ def run_tlc(module, cfg, workers=8, env=None, timeout=3600, simulate=None, heap=
     r.rc = p.returncode
     r.out = p.stdout
     r.wall = time.time() - t0
-    for line in _join_prints(p.stdout.splitlines()):
+    for line in _join_prints(p.stdout.split("\n")):      # (str.splitlines would also split at VT, FF, NEL, LS, PS)
         if line.startswith('<<"REPLAY", '):
             body = line[len('<<"REPLAY", '):-2]
             try:
